@@ -163,6 +163,8 @@ def run_property(prop, tier, facts_by_cfg, repo, seed):
                     samples.append({'rule': r.id, 'instance': i['name'], 'where': i['where'], 'detail': i['detail']})
         for e in ctx.internal_errors:
             lines.append('INTERNAL ERROR in rule:\n' + e)
+    for n_ in getattr(first.facts, 'notes', []):
+        lines.insert(0, 'normalisation: ' + n_)
     with open(report_path, 'w') as fh:
         fh.write('\n'.join(lines) + '\n')
 
@@ -182,6 +184,7 @@ def run_property(prop, tier, facts_by_cfg, repo, seed):
             'call_sites_parsed': sum(1 for f in f0.func_list for _ in f.calls(cleanup=True)),
             'adts_parsed': len(f0.adts),
             'impls_parsed': len(f0.impls),
+            'normalisation': getattr(f0, 'notes', []) or ['no helper was extracted or renamed relative to abi/known_functions.json'],
             'rules': rules_j,
             'evaluations': max(n_inst, 1),
             'distinct_nontrivial': distinct,
